@@ -49,9 +49,10 @@ def stripOp (line : String) : String :=
 
 def step (st : St) (line : String) : St × String :=
   match tokens line with
-  | ["reset", self] =>
+  | "reset" :: self :: orc =>
     let s := natTok self
-    ({ self := s, c := ⟨s, ⟨0, []⟩⟩, o := { self := s }, m := {} }, "ok")
+    let (ft, tt) := parseOracle orc
+    ({ self := s, c := ⟨s, ⟨0, []⟩⟩, o := { self := s, foldTab := ft, trimTab := tt }, m := {} }, "ok")
   | ["mlocal", ip, ones, bits, metric] =>
     match parseNet ip ones bits with
     | some n =>
@@ -241,11 +242,15 @@ def specStep (st : SpecSt) (l : String) : SpecSt × String :=
   | [opline, out] =>
     if out.startsWith "panic" || out.startsWith "crash" then (st, "fail crashed")
     else match tokens opline with
-      | ["reset", self] => ({ self := natTok self }, "ok")
+      | "reset" :: self :: orc =>
+        if tokens out != ["ok"] then ({ self := natTok self }, "fail bad-oracle")
+        else
+          let (ft, tt) := parseOracle orc
+          ({ self := natTok self, foldTab := ft, trimTab := tt }, "ok")
       | ["oracle", kind, i, o] =>
         match bytesOfHex i, bytesOfHex o with
         | some a, some b =>
-          if out != "ok" then (st, "fail bad-oracle")
+          if tokens out != ["ok"] then (st, "fail bad-oracle")
           else if kind = "fold" then ({ st with foldTab := (a, b) :: st.foldTab }, "ok")
           else ({ st with trimTab := (a, b) :: st.trimTab }, "ok")
         | _, _ => (st, "bad-op")
